@@ -20,7 +20,7 @@ TABLE = {'---': '—', '--': '–', '``': '“', "''": '”', '~': NBSP, '&': ' 
          '\\}': '}', '\\\\': ' '}
 KEYS = sorted(TABLE, key=lambda k: -len(k))
 ATOMS = ['--', '-', '`', "'", '~', '&', 'a', ' ', '\n', '\\,', '\\%', '\\&', '\\$', '\\#', '\\_',
-         '\\{', '\\}', '\\\\', '---']
+         '\\{', '\\}', '\\\\', '---', '*', '.']
 
 
 PARTS = [[(1, 0x20)], [(0x21, 0x2C)], [(0x2D, 0x2D), (0x60, 0x60), (0x27, 0x27)], [(0x2E, 0x5F)],
